@@ -701,18 +701,18 @@ class TextFieldFormat(AbstractFieldFormat):
 
 def field_name_index(field_name_to_look_up, available_field_names, location):
     """
-    The index of ``field_name_to_look_up`` (without leading or trailing
-    white space) in ``available_field_names``.
+    The index of ``field_name_to_look_up`` in ``available_field_names``. A
+    name with white space around it (for example a no-break space Python's
+    tokenizer takes for a part of the name) is unknown like any other name
+    that is none of the available ones.
 
     :param cutplace.errors.Location location: location used in case of errors
     :raise cutplace.errors.InterfaceError: if ``field_name_to_look_up`` is \
       not part of ``available_field_names``
     """
     assert field_name_to_look_up is not None
-    assert field_name_to_look_up == field_name_to_look_up.strip()
     assert available_field_names
 
-    field_name_to_look_up = field_name_to_look_up.strip()
     try:
         field_index = available_field_names.index(field_name_to_look_up)
     except ValueError:
